@@ -73,7 +73,7 @@ func main() {
 		fmt.Fprintln(os.Stderr, "cannot read keys:", err)
 		os.Exit(2)
 	}
-	client := &http.Client{Timeout: 180 * time.Second}
+	client := &http.Client{Timeout: 600 * time.Second}
 	for sc := 0; sc < *n; sc++ {
 		inflight := []int{0, 1, 2, 4, 3, 6}[sc%6]
 		timing := []string{"in-flight", "after-completion", "idle-just-up"}[g.Intn(3)]
@@ -97,7 +97,7 @@ func main() {
 		}
 		murl := "http://" + ma + "/metrics"
 		up := false
-		for i := 0; i < 600; i++ {
+		for i := 0; i < 4800; i++ {
 			if gauge(client, murl) >= 0 {
 				if c, e := net.Dial("tcp", pa); e == nil {
 					c.Close()
@@ -196,9 +196,9 @@ func main() {
 		var werr error
 		select {
 		case werr = <-done:
-		case <-time.After(120 * time.Second):
+		case <-time.After(600 * time.Second):
 			cmd.Process.Kill()
-			problem = "process did not exit within 120 s of SIGINT (deadlock?)"
+			problem = "process did not exit within 600 s of SIGINT (deadlock?)"
 		}
 		// the addresses must be free as soon as the process has exited
 		if problem == "" {
